@@ -8,10 +8,10 @@ D=$(mktemp -d /tmp/conf_XXXXXX)
 git -C /repo worktree add -q --detach "$D/repo" HEAD || exit 3
 cd "$D/repo"
 cp "$SRC/demo.py" "$D/demo.py"
-timeout 300 /venv/bin/python "$D/demo.py" > "$D/demo_clean.txt" 2>&1; RC_CLEAN=$?
+PYTHONPATH="$D/repo" timeout 300 /venv/bin/python "$D/demo.py" > "$D/demo_clean.txt" 2>&1; RC_CLEAN=$?
 git apply --whitespace=nowarn "$SRC/patch.diff" || { echo "patch does not apply"; cd /; git -C /repo worktree remove --force "$D/repo"; rm -rf "$D"; exit 3; }
-WHERE=$(/venv/bin/python -c 'import streamz,os;print(os.path.dirname(streamz.__file__))')
-timeout 300 /venv/bin/python "$D/demo.py" > "$D/demo_mut.txt" 2>&1; RC_MUT=$?
+WHERE=$(PYTHONPATH="$D/repo" /venv/bin/python -c 'import streamz,os;print(os.path.dirname(streamz.__file__))')
+PYTHONPATH="$D/repo" timeout 300 /venv/bin/python "$D/demo.py" > "$D/demo_mut.txt" 2>&1; RC_MUT=$?
 SUITE=$(flock /tmp/streamz_suite.lock /venv/bin/python -m pytest -q -p no:cacheprovider --timeout=900 2>&1 | grep -E "^[0-9]+ passed|failed|error" | tail -1)
 mkdir -p /verif/seeded/$NAME
 cp "$SRC/patch.diff" "$SRC/demo.py" /verif/seeded/$NAME/
